@@ -15,7 +15,9 @@ from xml.sax.saxutils import quoteattr
 
 # datatype -> (valid value texts, invalid value text or None)
 DATATYPES = {
-    "string": (["abc", "x y z", "UPPER", "héllo", "1 2  3", "a=b"], None),
+    "string": (["abc", "x y z", "UPPER", "héllo", "1 2  3", "a=b",
+                "a # not a comment", "<not a section>", "%not-a-directive",
+                "100$$", "tab\there", "</x>", "(paren) s"], None),
     "null": (["nil", "some text"], None),
     "integer": (["0", "42", "-7", "007"], "notanint"),
     "boolean": (["yes", "no", "TRUE", "off", "On"], "maybe"),
